@@ -786,7 +786,15 @@ def corpus_worlds():
     f16c = dict(copy.deepcopy(base), comps=[
         {'name': 'step', 'stage': 0, 'exe': 'cat', 'refs': [], 'args': ['zzz'], 'backend': loc},
         {'name': 'step7', 'stage': 0, 'exe': 'echo', 'refs': [], 'args': ['b'], 'backend': loc, 'replicate': 2}])
-    return [('F16', f16), ('F16b', f16b), ('F16b-replicas', f16c)]
+    # ... and whose replica index ends in that digit (sim1 -> sim11, w3 -> w33) next to a component named like the
+    # blueprint without its digit: the replica must be hashed with ITS blueprint's executable
+    f16d = dict(copy.deepcopy(base), comps=[
+        {'name': 'sim', 'stage': 0, 'exe': 'cat', 'refs': [], 'args': ['zzz'], 'backend': loc},
+        {'name': 'sim1', 'stage': 0, 'exe': 'echo', 'refs': [], 'args': ['b'], 'backend': loc, 'replicate': 2}])
+    f16e = dict(copy.deepcopy(base), comps=[
+        {'name': 'w3', 'stage': 0, 'exe': 'ls', 'refs': [], 'args': ['-l'], 'backend': loc, 'replicate': 4},
+        {'name': 'w', 'stage': 0, 'exe': 'cat', 'refs': [], 'args': ['q'], 'backend': loc}])
+    return [('F16', f16), ('F16b', f16b), ('F16b-replicas', f16c), ('F16b-replicas', f16d), ('F16b-replicas', f16e)]
 
 
 def corpus_families():
